@@ -337,7 +337,7 @@ func newSingleCharToken(tokenType token.Type, ch rune, lineNumber, charNumber, u
 		Literal:            string(ch),
 		LineNumber:         lineNumber,
 		EndLineNumber:      lineNumber,
-		StartCharIndex:     charNumber - 1,
+		StartCharIndex:     charNumber - utf8.RuneLen(ch),
 		StartUtf8CharIndex: utf8CharNumber - 1,
 		EndCharIndex:       charNumber,
 		EndUtf8CharIndex:   utf8CharNumber,
